@@ -79,9 +79,7 @@ def hess(fcn: Callable[..., torch.Tensor], params: Sequence[Any],
         def pfcn2(*params):
             with torch.enable_grad():
                 z = pfcn(*params)
-            grady, = torch.autograd.grad(z, (params[idx],), retain_graph=True,
-                                         create_graph=torch.is_grad_enabled())
-            return grady
+            return _vjp(z, params[idx], torch.ones_like(z), create_graph=torch.is_grad_enabled())
         return pfcn2
 
     for idx in idxs_list:
@@ -106,7 +104,7 @@ class _Jac(LinearOperator):
         with torch.enable_grad():
             yout = fcn(*params)  # (*nout)
             v = torch.ones_like(yout).to(yout.device).requires_grad_()  # (*nout)
-            dfdy, = torch.autograd.grad(yout, (yparam,), grad_outputs=v, create_graph=True)  # (*nin)
+            dfdy = _vjp(yout, yparam, v, create_graph=True)  # (*nin)
 
         inshape = yparam.shape
         outshape = yout.shape
@@ -162,7 +160,7 @@ class _Jac(LinearOperator):
                 yparam = self.params[self.idx]
                 yout = self.fcn(*self.params)  # (*nout)
                 v = torch.ones_like(yout).to(yout.device).requires_grad_()  # (*nout)
-                dfdy, = torch.autograd.grad(yout, (yparam,), grad_outputs=v, create_graph=True)  # (*nin)
+                dfdy = _vjp(yout, yparam, v, create_graph=True)  # (*nin)
 
         gy1 = gy.reshape(-1, self.nin)  # (nbatch, nin)
         nbatch = gy1.shape[0]
@@ -194,8 +192,8 @@ class _Jac(LinearOperator):
         nbatch = gout1.shape[0]
         dfdy_list = []
         for i in range(nbatch):
-            one_dfdy, = torch.autograd.grad(yout, (yparam,), grad_outputs=gout1[i].reshape(self.outshape),
-                                            retain_graph=True, create_graph=torch.is_grad_enabled())  # (*nin)
+            one_dfdy = _vjp(yout, yparam, gout1[i].reshape(self.outshape),
+                            create_graph=torch.is_grad_enabled())  # (*nin)
             dfdy_list.append(one_dfdy.unsqueeze(0))
         dfdy = torch.cat(dfdy_list, dim=0)  # (nbatch, *nin)
 
@@ -210,6 +208,18 @@ class _Jac(LinearOperator):
 
     def __update_params(self):
         self.params = self.param_sep.reconstruct_params(self.params_tensor)
+
+def _vjp(yout, yparam, v, create_graph):
+    # v^T (d yout / d yparam) with the shape of yparam.
+    # If yout does not depend on yparam (a zero block of the jacobian), it is
+    # zeros (still as a function of v), as in torch.autograd.functional.jacobian
+    res = None
+    if yout.requires_grad:
+        res, = torch.autograd.grad(yout, (yparam,), grad_outputs=v, retain_graph=True,
+                                   create_graph=create_graph, allow_unused=True)
+    if res is None:
+        res = torch.zeros_like(yparam) + 0 * v.sum()
+    return res
 
 def connect_graph(out, params):
     # just to have a dummy graph, in case there is a parameter that
